@@ -177,7 +177,7 @@ def run_shard(spec):
         if rng.random() < 0.2:
             case = gen.long_molecule_case(rng, nq=rng.randint(6, 10))
         else:
-            case = gen.pipeline_case(rng, ['partial', 'partial', 'chimeric', 'indel', 'indel', 'noisy'], param_prob=0.3,
+            case = gen.pipeline_case(rng, ['partial', 'partial', 'chimeric', 'translocation', 'indel', 'indel', 'noisy'], param_prob=0.3,
                                      param_keys=('d', 'ms', 'bs', 'p'), ref_kw={'repeats': rng.random() < 0.2})
         case['params']['diff'] = rng.choice([100000, 100000, 20000, 5000, 500000, 0])
         case['gen'] = [spec['seed'], spec['shard'], i]
